@@ -535,7 +535,7 @@ func runFileRefresh(ctx *fw.Ctx, c *fileCase) {
 	// finally: a large well-formed version and, right behind it, a small newer one. Whatever the refresh
 	// machinery does in between, it must end on the newer one and must not go back to the large one.
 	bigSmall := -1
-	if next <= 18 && c.Seed%2 == 0 {
+	for rep := 0; rep < 2 && next <= 17; rep++ {
 		var sb strings.Builder
 		for i := 0; i < c.Macs; i++ {
 			fmt.Fprintf(&sb, "%s %s\n", net.HardwareAddr(refreshMac(i)), versionAddr(v6, next, i))
@@ -554,6 +554,7 @@ func runFileRefresh(ctx *fw.Ctx, c *fileCase) {
 		r.Poll = &PollSpec{Until: hex.EncodeToString(versionAddr(v6, next+1, 0)), MaxPolls: 150, IntervalMs: 20, Hold: true}
 		bigSmall = len(j.Reqs)
 		add(r, exp{kind: "big-small", ver: next + 1, prev: next, mac: 0})
+		next += 2
 	}
 	out := RunChain(j, ctx.Scratch, 5*time.Minute)
 	desc := fmt.Sprintf("autorefresh v6=%v macs=%d steps=%v", v6, c.Macs, c.Steps)
